@@ -161,9 +161,10 @@ class LineModel:
 
 
 class RxHarness(Harness):
-    """env = (line, pend, gap, bad):
+    """env = (line, pend, gap, bad, nfr):
        line: None (idle 1) | (byte, stop, j, n) frame in progress | ("B", m) break (line low for m cycles so far)
-       pend: tuple of (byte, stop, age, j) frames whose delivery is still possible; gap: idle cycles since the last line activity (cap 3)
+       pend: tuple of (byte, stop, age, j) frames whose delivery is still possible; gap: idle cycles since the last line activity (cap 2); bad: the last activity was a
+       frame with a 0 stop bit or a break (the line must then idle 2 clocks); nfr: frames started (only counted in the bounded first_frame configurations)
     Expectation: exactly one source.valid per frame with a 1 stop bit, carrying its byte, not before the stop bit begins and no later than
     4 clocks after it ends; none for a 0 stop bit or a break."""
     live_queries = (("uart.rx.stuck", BUSY | QUIET, 0, (), "line idle for ever but the receiver FSM never returns to IDLE"),)
@@ -291,7 +292,7 @@ class RxHarness(Harness):
             flags |= BUSY
         if ch[0] == "i" and not pend2:
             flags |= QUIET
-        return (line2, tuple(pend2), gap2, bad2, nfr + 1 if (self.max_frames is not None and ch[0] in ("f", "b")) else nfr), None, flags
+        return (line2, tuple(pend2), gap2, bad2, nfr + 1 if (self.max_frames is not None and env[0] is None and ch[0] in ("f", "b")) else nfr), None, flags
 
     def cover_report(self):
         return dict(deliveries=self.delivered, bad_stop_frames=self.bad_seen, samples_on_an_edge=self.amb_seen, breaks=self.breaks_seen,
